@@ -1,3 +1,13 @@
+"""C17 - powder temperature sensitivity is linear, anchored and reproduces calibration."""
 LEVEL = 'proof'
-EXPLANATION = 'C17'
+EXPLANATION = ('Ammo.get_velocity_for_temp: disabled -> the stated velocity at every temperature; enabled -> v0 (1 + modifier/100 '
+               'x (T - T0)/15 C), hence v0 at T0 (contract, every path). Ammo.calc_powder_sens: the stored modifier makes '
+               'get_velocity_for_temp return the second measurement, with separate clauses for the second measurement being '
+               'faster and slower (the division by the lower velocity repaired in 01fcd2e failed the "slower" clause); equal '
+               'velocities or temperatures raise ValueError. Bare numbers mean the preferred unit (harnesses '
+               'powder_sens_bare_vs_quantity / velocity_for_temp_bare_vs_quantity under every preferred temperature and '
+               'velocity unit). _init_trajectory harness: the launch velocity is get_velocity_for_temp(atmosphere powder '
+               'temperature) when sensitivity is on, the stated velocity otherwise; Atmo: powder temperature defaults to the '
+               'air temperature (C07/C08 contracts).')
+NOT_DECIDED = []
 EXTRA = []
